@@ -191,9 +191,9 @@ func TestCheck(t *testing.T) {
 	for _, f := range []string{famUDP, famTCP, famDoT, famDoQ, famDoH, famDCUDP, famDCTCP} {
 		r.Require("boundary_group:opt-ttl:"+f, 20)
 	}
-	r.Require("opt_version_0:server-built-opt:request-version=1", 20)
-	r.Require("opt_version_0:server-built-opt:request-version=255", 10)
-	r.Require("opt_version_0:handler-opt=2:request-version=2", 5)
+	r.Require("opt_version_checked:server-built-opt:request-version=1", 20)
+	r.Require("opt_version_checked:server-built-opt:request-version=255", 10)
+	r.Require("opt_version_checked:handler-opt=2:request-version=2", 5)
 	r.Require("keepalive_returned:"+famTCP, 5)
 	r.Require("keepalive_returned:"+famDoT, 5)
 	r.Require("padding_added:"+famDoT, 10)
